@@ -529,7 +529,7 @@ pub fn property() -> Property {
         post: None,
         parts: vec![
             Box::new(Part { name: "short-sequences", driver: Driver::Enum(sequences), prop, exhaustive: true }),
-            Box::new(Part { name: "random-chains", driver: Driver::Gen(strategy, 40_000, 160_000), prop, exhaustive: false }),
+            Box::new(Part { name: "random-chains", driver: Driver::Gen(strategy, 40_000, 640_000), prop, exhaustive: false }),
         ],
     }
 }
